@@ -8,7 +8,7 @@ from .history import run_history, history_candidates, describe_history
 from ..engine import Outcome
 
 OPT_ATOMS = ["plat", "shift", "posix", "posixleak", "alloca", "incdiv", "incast", "cstyle", "aiob", "zerodiv", "unread",
-             "constparam", "ptrcast", "known", "nullred", "aiobcond", "uninit", "byvalue", "postfix", "member", "branches", "branches"]
+             "constparam", "ptrcast", "known", "nullred", "aiobcond", "uninit", "byvalue", "postfix", "member", "branches", "branches", "tstr", "tstr", "win64", "defval", "defval"]
 
 
 class C19(PropBase):
@@ -33,8 +33,9 @@ class C19(PropBase):
         # -I sensitive material: a header only found with -Iinc
         if rng.chance(0.5):
             tree["inc/onlyinc.h"] = ["static inline int oi(int y){return y/0;}", "#define ONLYINC 1"]
+            tree["inc2/onlyinc.h"] = ["static inline void oi2(void){int *p=0;*p=1;}", "#define ONLYINC 2"]
             u = rng.choice(proj["units"])
-            tree[u] = ['#include "onlyinc.h"', "#ifdef ONLYINC\nvoid fo(void){int q[2];q[2]=0;}\n#endif"] + tree[u]
+            tree[u] = ['#include "onlyinc.h"', "#if defined(ONLYINC) && ONLYINC==1\nvoid fo(void){int q[2];q[2]=0;}\n#endif"] + tree[u]
             if proj["langs"][u] == "cpp":
                 tree[u] = [tree[u][2]] + tree[u][:2] + tree[u][3:]
         base = gen.gen_option_set(rng, density=0.3)
